@@ -39,4 +39,3 @@ LEVEL_NOTE = ("The theorem is about the ladder model; memory safety of the C its
               "Known genuine defects are listed individually (keyed by operation / allocator class / failing allocation's "
               "function / consequence) so that any new failure is still reported.")
 TECHNIQUE = "Lean 4 induction over value shapes and fault positions (clean-up ladder model) + exhaustive single-fault injection"
-NOT_CLAIMED = "ladder model of cif_value_set_element_at being updated to follow /repo fix f1b092b (branch gI)"
